@@ -108,6 +108,12 @@ def main():
         detected = [q for q, c in r["checks"].items() if c["rc"] == 1]
         errors = [q for q, c in r["checks"].items() if c["rc"] not in (0, 1)]
         status = extra.get(n, {}).get("status")
+        if kind == "benign" and status == "known-false-alarm":
+            if detected or errors:
+                print("%-8s %-40s false alarm by %s %s (recorded limitation, DESIGN.md 10.8)" % (kind, n, detected, errors))
+            else:
+                print("%-8s %-40s silent (ok)  [was recorded as a known false alarm: remove it from expect.json]" % (kind, n))
+            continue
         if kind == "benign":
             okk = not detected and not errors
             print("%-8s %-40s %s %s" % (kind, n, "silent (ok)" if okk else "FALSE ALARM by %s %s" % (detected, errors),
